@@ -217,14 +217,32 @@ var c01opt = gen.ProgOpt{Fuel: 4, Partial: false, Sugar: true, NonFinite: true, 
 
 var c01 = Register(&Prop[ProgCase]{ID: "C01", Name: "preservation", Gen: genProgCase(c01opt, run.StdHarness), Check: checkC01})
 
+// programs with partial operations: a failure that a lazy host function recovers from (lz_try)
+// leaves a produced value, which must be as well-formed as any other
+var c01partialOpt = gen.ProgOpt{Fuel: 4, Partial: true, Sugar: true, NonFinite: true, Maybe: true, Times: true, Harness: true, Poison: true}
+
+func checkC01Partial(c *ProgCase) *Outcome {
+	o := checkC01(c)
+	if o.Err == nil && o.Skip == "" && c.Stats["lz_try"] > 0 {
+		o.Classes = append(o.Classes, "with-recovering-lazy-function")
+		if c.Stats["lz_try-failing-operand"] > 0 {
+			o.Classes = append(o.Classes, "recovered-failure-with-pending-operand")
+		}
+	}
+	return o
+}
+
+var c01partial = Register(&Prop[ProgCase]{ID: "C01", Name: "preservation-with-partial-operations", Gen: genProgCase(c01partialOpt, run.StdHarness), Check: checkC01Partial})
+
 func TestC01(t *testing.T) {
-	R.Rule = "well-typed programs over literals, variables, lists, maps, objects, member / subscript access, overloaded and polymorphic calls; every object occurrence (literal elements, conditional arms, typing environment, run-time values) written in an independently drawn field order; four back ends; plus member / subscript paths into reflect-built Go host values (two values of one Go type in a row), whose results must be well-formed values of the type inferred against that host data; plus programs mutated towards ill-typedness (C05's catalogue, user overloads): whenever yae's own checker accepts one with type T (the reference is not consulted), every value produced must be a well-formed value of T; plus C07's pairs of compile-time and mutated run-time environments: whenever the Callable evaluates over the run-time environment and yields a value, it is a well-formed value of the type inferred at compile time; oracle: inferred type = reference type and checked walk of every produced value (tag of every component equals the declared component type, no nil component, map entries under the key their text denotes); non-trivial = a value was produced, the program has a composite result or a member/subscript access, and one object type occurs in two field orders or a polymorphic / overloaded call is present"
+	R.Rule = "well-typed programs over literals, variables, lists, maps, objects, member / subscript access, overloaded and polymorphic calls; every object occurrence (literal elements, conditional arms, typing environment, run-time values) written in an independently drawn field order; four back ends; plus member / subscript paths into reflect-built Go host values (two values of one Go type in a row), whose results must be well-formed values of the type inferred against that host data; plus programs with partial operations (failures inside the deferred operand of a recovering lazy host function leave a produced value); plus programs mutated towards ill-typedness (C05's catalogue, user overloads): whenever yae's own checker accepts one with type T (the reference is not consulted), every value produced must be a well-formed value of T; plus C07's pairs of compile-time and mutated run-time environments: whenever the Callable evaluates over the run-time environment and yields a value, it is a well-formed value of the type inferred at compile time; oracle: inferred type = reference type and checked walk of every produced value (tag of every component equals the declared component type, no nil component, map entries under the key their text denotes); non-trivial = a value was produced, the program has a composite result or a member/subscript access, and one object type occurs in two field orders or a polymorphic / overloaded call is present"
 	R.Assume = []string{"ref.Check encodes the typing rules of C05's statement"}
 	reportKnown(t, "C01")
 	runRegress(t, "C01")
 	c01.Run(t, budget(6000, 320000))
 	c01host.Run(t, budget(2500, 160000))
 	c01acc.Run(t, budget(3000, 160000))
+	c01partial.Run(t, budget(4000, 200000))
 	c01env.Run(t, budget(2500, 120000))
 }
 
